@@ -3,6 +3,7 @@ mod capi;
 mod chain;
 mod dlog;
 mod expr;
+mod expr_e2e;
 mod ingest;
 mod chainrec;
 mod keycodec;
@@ -34,6 +35,7 @@ fn main() {
         "limits-time" => limits::cmd_time(&args[2]),
         "snap-replay" => snap::cmd_replay(&args[2], &args[3]),
         "expr-replay" => expr::cmd_replay(&args[2], &args[3]),
+        "expr-e2e" => expr_e2e::cmd_replay(&args[2], &args[3]),
         "sym-record" => symrec::cmd_record(args[2].parse().unwrap(), &args[3]),
         "tp-replay" => tp::cmd_replay(&args[2], &args[3]),
         "ver-replay" => ver::cmd_replay(&args[2], &args[3]),
